@@ -127,13 +127,15 @@ def correspond(ctx, name, lines, cmd, model_lines=None):
 
 
 # ------------------------------------------------------------------ builds
-def compile_drv(ctx, b, out, lvl=1, opt="-O1", variant=None, static_perm=False, wrap_free=False):
+def compile_drv(ctx, b, out, lvl=1, opt="-O1", variant=None, static_perm=False, wrap_free=False, static_aes=False):
     cmd = ["gcc", opt, "-g", "-std=gnu11", "-DRADIX_64", "-DTARGET_AMD64", "-DTARGET_OS_UNIX", "-DNDEBUG",
            "-D%s" % vlib.GUARD]
     cmd += ["-I" + i for i in ctx.includes(lvl, "ref", variant or "sqisigndim2")]
     libs = []
     if static_perm:
         cmd += ["-DWITH_FIPS202_STATIC", '-DFIPS202_C="%s"' % os.path.join(vlib.REPO, "src/common/generic/fips202.c")]
+    elif static_aes:
+        cmd += ["-DWITH_AES_STATIC", '-DAES_C="%s"' % os.path.join(vlib.REPO, "src/common/generic/aes_c.c"), "-Wno-unused-function"]
     else:
         allv = ["libsqisign_%s_lvl%d.a" % (v, lvl) for v in VARIANTS]
         for l in ctx.libs(b, lvl, "test"):
@@ -212,9 +214,17 @@ def run(ctx):
         return search(ctx, state)
 
     ok = vlib.proof_stage(ctx, ["SqiProps.C20"], searcher=searcher, extra_targets=["driver"])
-    if ok:
-        # the driver binary may predate the regenerated SqiGen: proof_stage built it (extra_targets)
-        pass
+    if not ok:
+        # a translator refusal ends proof_stage before the violation search: run it here, so that the refusal is reported
+        # together with a concrete failing input of the property whenever the real code has one
+        tv = [v for v in ctx.violations if str(v["key"]).startswith("translator:")]
+        if tv:
+            res = search(ctx, state)
+            if res:
+                key, what, replay = res
+                replay = dict(replay); replay["broken_obligations"] = [v["key"] for v in tv]
+                ctx.violations = [v for v in ctx.violations if v not in tv]
+                ctx.violation(key, what, replay, found=True)
     b = ctx.build_repo("ref", targets=None)
     state["build"] = b
     exe = os.path.join(ctx.tmp, "drv_hash")
@@ -229,6 +239,7 @@ def run(ctx):
     corr_inc(ctx, exe, quick)
     corr_drbg(ctx, exe, quick)
     corr_aes(ctx, exe, quick)
+    corr_aesct(ctx, b, quick)
     corr_mem(ctx, b, quick)
     corr_h2c(ctx, b, quick)
     return dict(level="proof", rule=RULE,
@@ -570,6 +581,60 @@ def corr_aes(ctx, exe, quick):
         classify(ctx, "aes", dis, oracle)
 
 
+def corr_aesct(ctx, b, quick):
+    """the generated bitsliced primitives (SqiGen.Aes, run by the Lean driver) against the static C functions they were
+    generated from (reached by #include "aes_c.c"), the hand model of aes_ecb4x against the C one on random states and
+    random expanded keys, and — the part of AES that is *not* proved — the C key schedule: its sk_exp must be, round by
+    round and in all four lanes, the bitsliced FIPS-197 round keys (hypothesis `hkeys` of theorem aes_ecb4x_eq_spec)."""
+    exe = compile_drv(ctx, b, os.path.join(ctx.tmp, "drv_aesct"), static_aes=True)
+    rng = ctx.rng.fork("aesct")
+    np = dict(sbox=8, ortho=8, shift_rows=8, mix_columns=8, add_round_key=16, interleave_in=6, interleave_out=6)
+    lines = []
+    for name, n in np.items():
+        for k in range(12 if quick else 120):
+            ws = [rng.bits(64) for _ in range(n)]
+            if k == 0:
+                ws = [0] * n
+            if k == 1:
+                ws = [2**64 - 1] * n
+            if name == "interleave_in":
+                ws = [w & 0xFFFFFFFF for w in ws[:4]] + [0, 0]
+            if name == "interleave_out":
+                ws = ws[:2] + [0, 0, 0, 0]
+            lines.append("aesct.prim %s %s" % (name, " ".join("%x" % w for w in ws)))
+            ctx.case("aesprim:%s:%d" % (name, k))
+    dis = correspond(ctx, "bitsliced AES primitives: static C functions vs generated register programs (SqiGen.Aes)", lines, [exe])
+    for d in dis[:2]:
+        ctx.violation("aesct:" + d["op"][:40], "generated AES primitive and compiled C primitive disagree (translator no longer describes the code)",
+                      dict(op=d["op"], impl=d["impl"], model=d["model"]), found=False)
+    lines = []
+    for k in range(6 if quick else 60):
+        nr = rng.choice([10, 12, 14])
+        ws = [rng.bits(32) for _ in range(16)] + [rng.bits(64) for _ in range(8 * (nr + 1))]
+        lines.append("aesct.ecb4x %x %s" % (nr, " ".join("%x" % w for w in ws)))
+        ctx.case("aesecb4x:%d:%d" % (nr, k))
+    dis = correspond(ctx, "aes_ecb4x (static C) vs hand model over the generated primitives", lines, [exe])
+    for d in dis[:2]:
+        ctx.violation("aesct:ecb4x:" + hashlib.sha1(d["op"].encode()).hexdigest()[:10], "aes_ecb4x model and C disagree",
+                      dict(op=d["op"][:3000], impl=d["impl"], model=d["model"]), found=False)
+    # key schedule (correspondence only): sk_exp of the C code unslices to the FIPS-197 round keys
+    keys = [bytes(range(32)), bytes(32), bytes([255] * 32)] + [rbytes(rng, 32) for _ in range(9 if quick else 200)]
+    klines = ["aesct.keys %s" % k.hex() for k in keys]
+    rc, cout, cerr = vlib.run_c([exe], klines)
+    mlines = ["aesct.keys %s %s" % (k.hex(), cout[i] if i < len(cout) else "") for i, k in enumerate(keys)]
+    mout = ctx.driver(mlines)
+    bad = [dict(key=keys[i].hex(), verdict=mout[i] if i < len(mout) else "<none>") for i in range(len(keys)) if i >= len(mout) or mout[i] != "ok"]
+    ctx.evaluations += len(keys)
+    for k in keys:
+        ctx.case("aeskeys:" + k[:4].hex())
+    ctx.obligation("AES-256 key schedule (C): sk_exp = bitsliced FIPS-197 round keys in all four lanes (%d keys; correspondence only)" % len(keys),
+                   not bad, json.dumps(bad[:2])[:400])
+    for d in bad[:2]:
+        ok = True
+        ctx.violation("aesct:keys:" + d["key"][:16], "the AES-256 key schedule of aes_c.c does not produce the FIPS 197 round keys",
+                      dict(key=d["key"], verdict=d["verdict"], how_to_replay="aesct.keys <key> on drv_aesct, then aesct.keys <key> <words> on the Lean driver"))
+
+
 def corr_mem(ctx, b, quick):
     rng = ctx.rng.fork("mem")
     lines = []
@@ -719,6 +784,45 @@ def search(ctx, state):
                     % (t[1], len(unhx(t[3])), int(t[2], 16)),
                     dict(op=l[:4000], impl=got[:400], expected=want[:400], oracle="python3 hashlib",
                          how_to_replay="echo '<op>' | drv_hash"))
+    # AES_256_ECB against the independent pure-Python FIPS 197
+    al = ["aes.enc256 %s %s" % (bytes(range(32)).hex(), bytes(17 * i for i in range(16)).hex())] + \
+         ["aes.enc256 %s %s" % (rbytes(rng, 32).hex(), rbytes(rng, 16).hex()) for _ in range(8)]
+    rc, cout, cerr = vlib.run_c([exe], al)
+    for i, l in enumerate(al):
+        t = l.split()
+        want = aes256(unhx(t[1]), unhx(t[2])).hex()
+        got = cout[i] if i < len(cout) else "<none>"
+        if got != want:
+            return ("aes:" + l[:50], "AES_256_ECB(key, block) differs from FIPS 197",
+                    dict(op=l, key=t[1], block=t[2], impl=got, expected=want, oracle="pure-Python FIPS 197 (tools/props/c20.py)"))
+    # hash_to_challenge of the three variants (level 1) against SHAKE256(enc j(E_com) || enc j(E_pk) || msg), iterated
+    for variant in VARIANTS:
+        try:
+            hexe = compile_drv(ctx, b, os.path.join(ctx.tmp, "drv_h2c_search_%s" % variant), lvl=1, variant=variant)
+        except vlib.BuildError:
+            continue
+        p = vlib.LEVELS[1]["p"]
+        iters = 0 if variant == "sqisigndim2" else 16
+        hl = []
+        for L in (0, 1, 33, 136, 200):
+            c1 = (rng.below(p), rng.below(p), 1 + rng.below(p - 1), rng.below(p))
+            c2 = (rng.below(p), rng.below(p), 1 + rng.below(p - 1), rng.below(p))
+            hl.append("h2c.curve %s %s %s 0 %s" % ((enc_fp2(1, c1[0], c1[1]) + enc_fp2(1, c1[2], c1[3])).hex(),
+                                                 (enc_fp2(1, c2[0], c2[1]) + enc_fp2(1, c2[2], c2[3])).hex(),
+                                                 (enc_fp2(1, 1, 0) + enc_fp2(1, 1, 0)).hex(), hx(rbytes(rng, L))))
+        rc, cout, cerr = vlib.run_c([hexe], hl)
+        for i, l in enumerate(hl):
+            if i >= len(cout):
+                break
+            o = cout[i].split()
+            dg = shake(256, unhx(o[0]) + unhx(o[1]) + unhx(l.split()[5]), 32)
+            for _ in range(iters):
+                dg = shake(256, dg, 32)
+            if o[2:] != ["1", "%x" % int.from_bytes(dg, "little")]:
+                return ("h2c:%s:%s" % (variant, hashlib.sha1(l.encode()).hexdigest()[:10]),
+                        "hash_to_challenge (%s, lvl1) differs from SHAKE256(enc j(E_com) || enc j(E_pk) || msg) iterated %d times" % (variant, iters),
+                        dict(op=l[:1500], impl=cout[i][:400], j_com=o[0], j_pk=o[1], message=l.split()[5],
+                             expected_challenge="%x" % int.from_bytes(dg, "little"), oracle="python3 hashlib"))
     dl = ["drbg.run %s - 0 1 15 10 11 2710" % hx(bytes(range(48)))] + crafted_drbg_lines(ctx.rng.fork("drbg-crafted"), True)
     rc, cout, cerr = vlib.run_c([exe], dl)
     for i, l in enumerate(dl):
